@@ -31,14 +31,38 @@ var optionAliases = map[string]string{
 	"WithSpecialFragmentPathPercentEncodeSet": "specialFragmentPercentEncodeSet",
 }
 
+// profileFieldOf: the field of the profile that fa addresses — a field of the profile struct itself, or the field of
+// a struct of the module that the profile holds by value (embedded or named: `p.postProcessing.removePort` is the
+// profile's removePort).
+func profileFieldOf(fa *ssa.FieldAddr) (string, bool) {
+	leaf := fieldElem(fa.X.Type(), fa.Field)
+	if i := strings.Index(leaf, ":"); i >= 0 {
+		leaf = leaf[i+1:]
+	}
+	x := fa.X
+	for depth := 0; depth < 3; depth++ {
+		if namedOf(x.Type()) == "profile" {
+			return leaf, true
+		}
+		up, ok := x.(*ssa.FieldAddr)
+		if !ok {
+			return "", false
+		}
+		x = up.X
+	}
+	return "", false
+}
+
 // condDesc describes a branch fact of the canonicalizer in symbolic form.
 func condDesc(f condFact) string {
 	pol := map[bool]string{true: "", false: "!"}[f.Val]
 	v := f.Cond
 	// profile flag
 	if x, ok := v.(*ssa.UnOp); ok && x.Op == token.MUL {
-		if fa, ok := x.X.(*ssa.FieldAddr); ok && namedOf(fa.X.Type()) == "profile" {
-			return pol + "profile." + strings.TrimPrefix(fieldElem(fa.X.Type(), fa.Field), "profile:")
+		if fa, ok := x.X.(*ssa.FieldAddr); ok {
+			if fld, ok := profileFieldOf(fa); ok {
+				return pol + "profile." + fld
+			}
 		}
 	}
 	if bo, ok := v.(*ssa.BinOp); ok && (bo.Op == token.EQL || bo.Op == token.NEQ) {
@@ -54,8 +78,10 @@ func condDesc(f condFact) string {
 				kv = k.Value.ExactString()
 			}
 			if x, ok := pr[0].(*ssa.UnOp); ok && x.Op == token.MUL {
-				if fa, ok := x.X.(*ssa.FieldAddr); ok && namedOf(fa.X.Type()) == "profile" {
-					return "profile." + strings.TrimPrefix(fieldElem(fa.X.Type(), fa.Field), "profile:") + op + kv
+				if fa, ok := x.X.(*ssa.FieldAddr); ok {
+					if fld, ok := profileFieldOf(fa); ok {
+						return "profile." + fld + op + kv
+					}
 				}
 			}
 			if call, ok := pr[0].(*ssa.Call); ok {
